@@ -26,6 +26,19 @@ CHECKS = {
    note='Trusted: Lean kernel, translator py2lean.gen_options and the fixed semantics of its combinators (validated by running the '
         'generated parsers against the real code), byte-image purity oracle. Thread interleavings inside BLAS are observed only.',
    technique='Lean 4 proof over a model generated from source by a translator, plus correspondence and purity runs'),
+ 'C10': dict(
+   category='proof',
+   text='Every call site of the KKT factorisation and of a KKT solve in conelp, coneqp and cpl, its enclosing except-ArithmeticError '
+        'handler and the control paths of that handler, and every raise statement of the nine entry points are regenerated from the '
+        'source into a Lean table on every run. Theorems over that table (all sites, all solver states, all failure sequences): no '
+        'failure escapes, start-up failures give the documented ValueError, later ones status unknown or a recovery (cpl), never '
+        'optimal; every raise is TypeError/ValueError with all names bound. Exhaustive fault injection over all KKT calls of the '
+        'fault-free runs ties the table to the real solvers (site found through the live frame, outcome compared).',
+   design_ref='DESIGN.md 5 C10',
+   note='Trusted: Lean kernel, translator py2lean.gen_faults (AST walk; handler path enumeration) and Model/Faults.lean semantics, '
+        'validated by the injection runs; the numerical state after a cpl restore is not modelled; backtracking into the domain is '
+        'observed on domain-restricted F, not proved.',
+   technique='Lean 4 proof (decide over a source-generated site table + induction over failure sequences) with fault-injection correspondence'),
 }
 REASONS = {}
 def main():
